@@ -62,12 +62,45 @@ func respellings(q string) []string {
 			m := mask
 			out = append(out, mk(func(k int) bool { return m&(1<<k) != 0 }))
 		}
-		return out
+		return append(out, otherCapitals(rs)...)
 	}
 	out = append(out, mk(func(int) bool { return false }), mk(func(int) bool { return true }),
 		mk(func(k int) bool { return k == 0 || (pos[k] > 0 && rs[pos[k]-1] == ' ') }),
 		mk(func(k int) bool { return k%2 == 1 }), mk(func(k int) bool { return k == n-1 }))
-	return out
+	return append(out, otherCapitals(rs)...)
+}
+
+// otherCapitals: letters that have a second upper-case form whose lower-casing is the same letter and agrees
+// with simple case folding (k: KELVIN SIGN U+212A, å: ANGSTROM SIGN U+212B, ω: OHM SIGN U+2126, θ: U+03F4 ...).
+// Two more spellings: every such letter in that form, and only the first one.
+func otherCapitals(lower []rune) []string {
+	alt := func(l rune) rune {
+		for r := unicode.SimpleFold(l); r != l; r = unicode.SimpleFold(r) {
+			if r != unicode.ToUpper(l) && unicode.ToLower(r) == l {
+				return r
+			}
+		}
+		return 0
+	}
+	all := append([]rune{}, lower...)
+	first := append([]rune{}, lower...)
+	n := 0
+	for i, l := range lower {
+		if a := alt(l); a != 0 {
+			all[i] = a
+			if n == 0 {
+				first[i] = a
+			}
+			n++
+		}
+	}
+	switch n {
+	case 0:
+		return nil
+	case 1:
+		return []string{string(all)}
+	}
+	return []string{string(all), string(first)}
 }
 
 var c20Paths = []string{"lexical", "nlp", "fuzzy", "fuzzy-30", "nlp+fuzzy", "cached", "suggestions", "lexical-cap4", "nlp-cap5"}
@@ -316,7 +349,7 @@ func c20Run(c *lib.Ctx) {
 func init() {
 	lib.Register(&lib.Check{
 		ID: "C20", Level: "model_checking",
-		Rule:      "every query (all 1- and 2-word sequences over the lower-cased 22-word alphabet + 26 typo / NLP / non-ASCII queries + 5 stop-word-laden queries of up to 11 words + 6 queries naming a platform or its shell) x every case re-spelling (all 2^n patterns when the query has n<=6 (thorough: n<=9) cased letters, else lower/UPPER/Title/alternating/last-letter) x paths {lexical, NLP, fuzzy thr 0, fuzzy thr -30, NLP+fuzzy, cached (q then Q, served from q's entry, also compared with a fresh search of Q), suggestions; for queries of >=4 words also lexical with TopTermsCap 4 and NLP with TopTermsCap 5} x databases (all subsets of <=2 (thorough: <=3) of 10 pool entries incl. upper-case and non-ASCII text, the 40-entry database, a Cyrillic/Greek/Latin-1 database, a database with the NLP expansion vocabulary): answers must be bit-identical to the lower-case spelling's; 8 white-space paddings of every query (ASCII and Unicode blanks, leading / trailing / repeated) through ValidateQuery: the validated form is the plain query's, or else every path must answer both forms alike. Letters re-cased only between ToLower/ToUpper forms that are mutually inverse and fold-equivalent. evaluations = searches; non-trivial = pairs with a non-empty answer",
+		Rule:      "every query (all 1- and 2-word sequences over the lower-cased 22-word alphabet + 26 typo / NLP / non-ASCII queries + 5 stop-word-laden queries of up to 11 words + 6 queries naming a platform or its shell) x every case re-spelling (all 2^n patterns when the query has n<=6 (thorough: n<=9) cased letters, else lower/UPPER/Title/alternating/last-letter; plus, for letters with a second capital form such as k / KELVIN SIGN, the spelling with all of them and with the first of them in that form) x paths {lexical, NLP, fuzzy thr 0, fuzzy thr -30, NLP+fuzzy, cached (q then Q, served from q's entry, also compared with a fresh search of Q), suggestions; for queries of >=4 words also lexical with TopTermsCap 4 and NLP with TopTermsCap 5} x databases (all subsets of <=2 (thorough: <=3) of 10 pool entries incl. upper-case and non-ASCII text, the 40-entry database, a Cyrillic/Greek/Latin-1 database, a database with the NLP expansion vocabulary): answers must be bit-identical to the lower-case spelling's; 8 white-space paddings of every query (ASCII and Unicode blanks, leading / trailing / repeated) through ValidateQuery: the validated form is the plain query's, or else every path must answer both forms alike. Letters re-cased only between ToLower/ToUpper forms that are mutually inverse and fold-equivalent. evaluations = searches; non-trivial = pairs with a non-empty answer",
 		Assume:    []string{"map order pinned, host pinned", "CLI-level padding and case pairs are checked at process level in C17"},
 		QuickSecs: 150, ThorSecs: 900,
 		Run: c20Run,
